@@ -140,14 +140,29 @@ def main():
             out = os.path.join(tmp, f"part{i}.json")
             e = dict(os.environ)
             e.setdefault("NUMBA_NUM_THREADS", "16")
+            e.setdefault("PYTHONWARNINGS", "ignore")      # (thousands of numpy RuntimeWarnings would bury a traceback)
             p = subprocess.Popen([sys.executable, os.path.abspath(__file__), prop, "--tier", args.tier,
                                   "--shard", str(i), "--nshards", str(nworkers), "--partial-out", out],
                                  env=e, stdout=subprocess.PIPE, stderr=subprocess.PIPE, text=True)
             procs.append((p, out))
         parts = []
         failed = []
+        retried = []
         for i, (p, out) in enumerate(procs):
             so, se = p.communicate()
+            if p.returncode == 2 or (p.returncode == 0 and not os.path.exists(out)):
+                # a harness error is no verdict about the code: keep its output for diagnosis and run the shard once more
+                os.makedirs(os.path.join(HERE, "replays", prop), exist_ok=True)
+                with open(os.path.join(HERE, "replays", prop, f"harness-error-seed{seed}-shard{i}.log"), "w") as f:
+                    f.write(se[-20000:])
+                e = dict(os.environ)
+                e.setdefault("NUMBA_NUM_THREADS", "16")
+                p = subprocess.Popen([sys.executable, os.path.abspath(__file__), prop, "--tier", args.tier,
+                                      "--shard", str(i), "--nshards", str(nworkers), "--partial-out", out],
+                                     env=e, stdout=subprocess.PIPE, stderr=subprocess.PIPE, text=True)
+                so, se = p.communicate()
+                if p.returncode == 0 and os.path.exists(out):
+                    retried.append(i)
             if p.returncode != 0 or not os.path.exists(out):
                 failed.append((i, p.returncode, se[-3000:]))
                 continue
@@ -159,6 +174,9 @@ def main():
         from vlib import harness
 
         merged = harness.merge_partials(parts) if parts else harness.merge_partials([])
+        for i in retried:
+            merged.setdefault("notes", []).append(f"worker {i} ended with a harness error once and completed on the second "
+                                                 f"attempt (output kept in replays/{prop}/harness-error-seed{seed}-shard{i}.log)")
         for i, rc, se in failed:
             if rc is not None and (rc < 0 or rc in (134, 139)):
                 # killed by a signal: the code under test crashed the interpreter on generated input
